@@ -52,3 +52,30 @@ CONFIG["C11"] = {
     "assumptions": COMMON_ASSUMPTIONS + ["each history is first checked to denote the intended abstract value (through compact/padded bits), so a failure here is a failure of the comparison traits"],
     "counter_floors": {"quick": {"history.machine-output-dirty-frame": 1000}, "thorough": {"history.machine-output-dirty-frame": 20000}},
 }
+
+CONFIG["C18"] = {
+    "budget_s": {"quick": 90, "thorough": 1500},
+    "floor": {"quick": 5000, "thorough": 100000},
+    "rule": ("cases are blocks of 512 DAG shapes: every assignment of children (none | one earlier node | ordered pair of earlier nodes, possibly the same twice) "
+             "to n <= 7 (thorough 8) nodes, kept when every node is reachable from the root, plus random 8..40-node shapes; each shape is iterated through a harness "
+             "type implementing the public DagLike trait under NoSharing, InternalSharing and a structural (unfolded-subtree) tracker: post_order_iter, "
+             "rtl_post_order_iter, pre_order_iter, verbose_pre_order_iter(max_depth in {None,0,1,2,3}) and is_shared_as are compared item-for-item with a naive "
+             "recursive walker, and the post-order items are also checked directly (consecutive indices, children before parents, child indices point at the child's class). "
+             "Non-trivial: block contains at least one fully reachable shape; distinct: distinct blocks / shapes."),
+    "exhaustive_claim": "all DAG shapes with at most 7 (thorough: 8) nodes in which every node is reachable from the root, x 3 sharing trackers x 5 iterators",
+    "assumptions": COMMON_ASSUMPTIONS + ["identity-hash sharing is represented by a harness tracker whose class is the hash of the unfolded subtree; real CommitNode/RedeemNode DAGs under MaxSharing are exercised by C01/C02"],
+    "counter_floors": {"quick": {"shapes": 100000}, "thorough": {"shapes": 1000000}},
+}
+
+CONFIG["C19"] = {
+    "budget_s": {"quick": 60, "thorough": 900},
+    "floor": {"quick": 2000, "thorough": 30000},
+    "rule": ("a case is a witness stack (empty; single item straddling 252/253 and 65535/65536; 251..254 and 65534..65536 tiny items; mixed; typical spend; random) "
+             "checked against every deficit in [-3,300] u [65500,65560] x remainders {-999,-1,0,1,500,999} (exhaustive sub-check), against random costs up to the "
+             "consensus maximum, and cost<->weight conversions over runs of 40 consecutive costs near 0, near the consensus maximum and near u32::MAX. "
+             "Oracle: budget = compact-size serialised length + 50 recomputed by the harness; validity, annex format, sufficiency (model and the library's own predicate "
+             "after appending the annex), fix-point, and minimality unless the item count is 252 or 65535. Distinct: distinct stacks / cost runs."),
+    "exhaustive_claim": "every deficit in [-3,300] and [65500,65560] x 6 remainders for each generated stack",
+    "assumptions": COMMON_ASSUMPTIONS + ["compact-size rule: 1 byte <= 252, 3 bytes <= 65535, 5 bytes <= 2^32-1"],
+    "counter_floors": {"quick": {"minimality-checked": 50000}, "thorough": {"minimality-checked": 500000}},
+}
